@@ -82,6 +82,8 @@ type Master struct {
 	defRepl  string
 	NoGrow   bool
 	Heartbeats int
+	// ec shard registry from heartbeats: vid -> url -> shard bits
+	ec map[uint32]map[string]uint32
 }
 
 func (m *Master) GetMasterConfiguration(ctx context.Context, r *master_pb.GetMasterConfigurationRequest) (*master_pb.GetMasterConfigurationResponse, error) {
@@ -175,6 +177,39 @@ func (m *Master) SendHeartbeat(s master_pb.Seaweed_SendHeartbeatServer) error {
 		}
 		if hb.MaxFileKey > 0 {
 			m.seq.SetMax(hb.MaxFileKey)
+		}
+		if m.ec == nil {
+			m.ec = map[uint32]map[string]uint32{}
+		}
+		setEc := func(id uint32, bits uint32, mode int) {
+			if m.ec[id] == nil {
+				m.ec[id] = map[string]uint32{}
+			}
+			switch mode {
+			case 0:
+				m.ec[id][url] = bits
+			case 1:
+				m.ec[id][url] |= bits
+			case 2:
+				m.ec[id][url] &^= bits
+			}
+			if m.ec[id][url] == 0 {
+				delete(m.ec[id], url)
+			}
+		}
+		if len(hb.EcShards) > 0 || hb.HasNoEcShards {
+			for id := range m.ec {
+				delete(m.ec[id], url)
+			}
+			for _, e := range hb.EcShards {
+				setEc(e.Id, e.EcIndexBits, 0)
+			}
+		}
+		for _, e := range hb.NewEcShards {
+			setEc(e.Id, e.EcIndexBits, 1)
+		}
+		for _, e := range hb.DeletedEcShards {
+			setEc(e.Id, e.EcIndexBits, 2)
 		}
 		if len(msg.NewVids) > 0 || len(msg.DeletedVids) > 0 {
 			m.broadcast(msg)
@@ -361,6 +396,28 @@ func (m *Master) LookupVolume(ctx context.Context, r *master_pb.LookupVolumeRequ
 			e.Error = "volume id " + v + " not found"
 		}
 		resp.VolumeIdLocations = append(resp.VolumeIdLocations, e)
+	}
+	return resp, nil
+}
+
+func (m *Master) LookupEcVolume(ctx context.Context, r *master_pb.LookupEcVolumeRequest) (*master_pb.LookupEcVolumeResponse, error) {
+	m.mu.Lock()
+	defer m.mu.Unlock()
+	resp := &master_pb.LookupEcVolumeResponse{VolumeId: r.VolumeId}
+	byUrl := m.ec[r.VolumeId]
+	if len(byUrl) == 0 {
+		return nil, fmt.Errorf("ec volume %d not found", r.VolumeId)
+	}
+	for shard := uint32(0); shard < 14; shard++ {
+		var locs []*master_pb.Location
+		for u, bits := range byUrl {
+			if bits&(1<<shard) != 0 {
+				locs = append(locs, &master_pb.Location{Url: u, PublicUrl: u})
+			}
+		}
+		if len(locs) > 0 {
+			resp.ShardIdLocations = append(resp.ShardIdLocations, &master_pb.LookupEcVolumeResponse_EcShardIdLocation{ShardId: shard, Locations: locs})
+		}
 	}
 	return resp, nil
 }
